@@ -62,7 +62,7 @@ def replay_and_validate(ctx, hs, tag):
     for v in mon["viols"]:
         e = kept[v["l"] - 1]
         # replay file: the offending history alone
-        hist = hs[e["h"] - 1]
+        hist = hs[e["h"] - 1] if e["h"] <= len(hs) else "[]"   # concurrent rounds follow the histories and need none
         rp = os.path.join(ctx.scratch, "viol-%s-h%d.ndjson" % (tag, e["h"]))
         with open(rp, "w") as f:
             f.write(hist + "\n")
